@@ -36,6 +36,19 @@ Definition catches_exception (h : list exn * haction) : bool := existsb (derives
 Definition six : list cls := [CList; CSet; CDict; CFrozenSet; CTuple; CType].
 Definition builtin_origins : list tname := [TList; TSet; TFrozenSet; TDict; TTuple; TType].
 
+(* exception classes the model of _is_instance can raise (all caught and re-raised by _check_type) *)
+Definition model_exns : list exn :=
+  [IndexErrorC; TypeErrorC; ValueErrorC; AttributeErrorC; AssertionErrorC; RuntimeErrorC; NameErrorC; PTypeCheckC].
+Definition handled_as_ptc (c : checker_cfg) (e : exn) : bool :=
+  match handle (handlers c) e with Raise r => derives r PTypeCheckC | Ok _ => false end.
+(* the typing generics of C06 that the arity tables reject without arguments (Type goes another way) *)
+Definition bare_names : list tname := [TList; TDict; TSet; TFrozenSet; TTuple; TCallable; TIterable; TSequence].
+Definition bare_rejected (c : checker_cfg) (o : tname) : bool :=
+  match req_exact c o with
+  | Some k => negb (Nat.eqb k 0)
+  | None => match req_min c o with Some k => Nat.leb 1 k | None => false end
+  end.
+
 Definition cfg_good (c : checker_cfg) : bool :=
   forallb (kind_ok c) vocab_names && forallb (req_ok c) vocab_names
   && match special_checker c TAny with Some SkAnyTrue => true | _ => false end
@@ -46,6 +59,8 @@ Definition cfg_good (c : checker_cfg) : bool :=
   && forallb bare_builtin_cls (bare_builtins c) && forallb (fun x => existsb (cls_eqb x) (bare_builtins c)) six
   && forallb bare_builtin_cls (conv_bare c) && forallb (fun x => existsb (cls_eqb x) (conv_bare c)) six
   && forallb (fun o => existsb (tname_eqb o) (conv_origins c)) builtin_origins
+  && conv_type_keeps_classes c
+  && existsb (derives ValueErrorC) (sig_catches c) && existsb (derives TypeErrorC) (sig_catches c)
   && forallb (fun h => is_pedantic_raise (snd h)) (handlers c) && existsb catches_exception (handlers c)
   && derives (mismatch_raises c) PTypeCheckC
   && match it_quant c with QAll => true | _ => false end && Nat.eqb (it_index c) 0
@@ -54,7 +69,9 @@ Definition cfg_good (c : checker_cfg) : bool :=
   && match tu_ell_quant c with QAll => true | _ => false end && Nat.eqb (tu_ell_index c) 0
   && tu_len_check c && match tu_zip_quant c with QAll => true | _ => false end
   && match un_quant c with QAny => true | _ => false end
-  && lit_in c && Nat.eqb (ty_index c) 0 && str_walks_mro c && none_by_eq c.
+  && lit_in c && Nat.eqb (ty_index c) 0 && str_walks_mro c && none_by_eq c
+  && forallb (handled_as_ptc c) model_exns && forallb (bare_rejected c) bare_names
+  && match special_checker c TType with None => true | _ => false end.
 
 Record good_facts (c : checker_cfg) : Prop := {
   gf_kind : forall o, In o vocab_names -> kind_ok c o = true;
@@ -69,6 +86,9 @@ Record good_facts (c : checker_cfg) : Prop := {
   gf_conv_sub : forall x, In x (conv_bare c) -> bare_builtin_cls x = true;
   gf_conv_sup : forall x, In x six -> existsb (cls_eqb x) (conv_bare c) = true;
   gf_conv_origins : forall o, In o builtin_origins -> existsb (tname_eqb o) (conv_origins c) = true;
+  gf_conv_type : conv_type_keeps_classes c = true;
+  gf_sig_value : existsb (derives ValueErrorC) (sig_catches c) = true;
+  gf_sig_type : existsb (derives TypeErrorC) (sig_catches c) = true;
   gf_handlers_ped : forall h, In h (handlers c) -> is_pedantic_raise (snd h) = true;
   gf_handlers_catch : existsb catches_exception (handlers c) = true;
   gf_mismatch : derives (mismatch_raises c) PTypeCheckC = true;
@@ -78,6 +98,9 @@ Record good_facts (c : checker_cfg) : Prop := {
   gf_len : tu_len_check c = true; gf_zip : tu_zip_quant c = QAll;
   gf_un : un_quant c = QAny; gf_lit : lit_in c = true; gf_ty : ty_index c = 0;
   gf_str : str_walks_mro c = true; gf_none : none_by_eq c = true;
+  gf_handled : forall e, In e model_exns -> handled_as_ptc c e = true;
+  gf_bare_rejected : forall o, In o bare_names -> bare_rejected c o = true;
+  gf_type_not_special : special_checker c TType = None;
 }.
 
 Lemma cfg_good_facts c : cfg_good c = true -> good_facts c.
@@ -98,6 +121,7 @@ Qed.
 (* chk: what the checker computes on the supported vocabulary, as a pure function *)
 
 Section Chk.
+  Variable cfg : checker_cfg.
   Variable ctx : nat -> option cls.
 
   Fixpoint chk (a : ann) (v : value) : bool :=
@@ -137,7 +161,7 @@ Section Chk.
         | _, _ => false
         end
     | ATupleVar _ e => match v with VTuple vs => forallb (chk e) vs | _ => false end
-    | ACallable ps r => match callable_check ps r v with Ok b => b | Raise _ => false end
+    | ACallable ps r => match callable_check cfg ps r v with Ok b => b | Raise _ => false end
     | _ => false
     end.
 
